@@ -186,81 +186,7 @@ Definition judge_num (op : numop) (args : list N) (reverted : bool) (code : N) (
           (known_num op args) (is_oof m).
 
 (* --------------------------------------------------------------------------- collections *)
-(* Bytes/String extras on top of the shared operations (model: CollModel; reference: lists) *)
-Inductive cop :=
-| CV (o : vop)
-| CResize (n x : N)
-| CAppend (other : list N)
-| CSplitAt (mid : N)
-| CString.          (* String::from_ascii(b): len, capacity, is_empty, as_bytes contents *)
-
-Definition dump (v : vec) : list N := [len v; cap v] ++ abs v.
-
-Fixpoint of_pushes (l : list N) (v : vec) : out vec :=
-  match l with
-  | [] => Ret v
-  | x :: r => let* s := vstep v (VPush x) in of_pushes r (fst s)
-  end.
-
-Definition cstep (v : vec) (o : cop) : out (vec * list N) :=
-  match o with
-  | CV o => vstep v o
-  | CResize n x => Ret (bresize v n x, [])
-  | CAppend other => let* ov := of_pushes other vnew in Ret (bappend v ov, [len ov; cap ov])
-  | CSplitAt mid => let* lr := bsplit_at v mid in Ret (v, dump (fst lr) ++ dump (snd lr))
-  | CString => let s := bclone v in Ret (v, [len s; cap s; N.b2n (len s =? 0)] ++ abs (bclone s))
-  end.
-
-Fixpoint crun (ops : list cop) (v : vec) : list N * out unit :=
-  match ops with
-  | [] => (dump v, Ret tt)
-  | o :: rest =>
-    match cstep v o with
-    | Ret (v', ob) => let '(obs, fin) := crun rest v' in (ob ++ obs, fin)
-    | Rev c => ([], Rev c)
-    | Vmp p => ([], Vmp p)
-    | Oof => ([], Oof)
-    end
-  end.
-
-(* reference *)
-Definition ldump (s : lstate) : list N := [N.of_nat (length (fst s)); snd s] ++ fst s.
-
-Fixpoint lcap_after_pushes (n : nat) (c k : N) : N :=   (* capacity after pushing n elements from (len k, cap c) *)
-  match n with
-  | O => c
-  | S n' => lcap_after_pushes n' (if k =? c then (if c =? 0 then 1 else 2 * c) else c) (k + 1)
-  end.
-
-Definition clstep (s : lstate) (o : cop) : option (lstate * list N) :=
-  let '(l, c) := s in
-  let n := N.of_nat (length l) in
-  match o with
-  | CV o => lstep s o
-  | CResize m x =>
-    if m <=? n then Some ((firstn (N.to_nat m) l, c), [])
-    else Some ((l ++ repeat x (N.to_nat m - length l), if c <? m then m else c), [])
-  | CAppend other =>
-    let k := N.of_nat (length other) in
-    let oc := lcap_after_pushes (length other) 0 0 in
-    if k =? 0 then Some (s, [k; oc])
-    else Some ((l ++ other, if c <? n + k then n + k else c), [k; oc])
-  | CSplitAt mid =>
-    if mid <=? n then Some (s, [mid; mid] ++ firstn (N.to_nat mid) l ++ [n - mid; n - mid] ++ skipn (N.to_nat mid) l)
-    else None
-  | CString => Some (s, [n; n; N.b2n (n =? 0)] ++ l)
-  end.
-
-Fixpoint clrun (ops : list cop) (s : lstate) : list N * out unit :=
-  match ops with
-  | [] => (ldump s, Ret tt)
-  | o :: rest =>
-    match clstep s o with
-    | Some (s', ob) => let '(obs, fin) := clrun rest s' in (ob ++ obs, fin)
-    | None => ([], Rev FAILED_ASSERT_SIGNAL)
-    end
-  end.
-
+(* cop / cstep / crun: CollModel; clstep / clrun: CollSpec *)
 Definition fin_same (f : out unit) (reverted : bool) (code : N) : bool :=
   match f with
   | Ret _ => negb reverted
